@@ -75,21 +75,32 @@ def cmpAtom : IExp → IExp → Ordering
   | pow b _, pow b' _ => baseCmp b b'
   | _, _ => .lt
 
-/-- `fast_compare` on bodies (`x ^ e` or left-nested products of such). -/
+/-- size of the function part: `|power b| = |b| + 2`, `|times x| = |x| + 2` (the `+ 2` is dropped) -/
+def fszI : IExp → Nat
+  | pow b _ => b.size
+  | mul x _ => x.size
+  | _ => 0
+
+/-- `power` < `times` (constant names) -/
+def clsI : IExp → Nat
+  | mul _ _ => 1
+  | _ => 0
+
+/-- two atoms `x ^ e`, `y ^ f` whose sizes and base sizes agree: the bases, then the exponents -/
+def leafI : IExp → IExp → Ordering
+  | pow b e, pow b' e' => ordThen (baseCmp b b') (numCmp e e')
+  | _, _ => .eq
+
+/-- `fast_compare` on bodies (`x ^ e` or left-nested products of such): size, then the function
+parts (`power b` / `times x`: their sizes, `power` < `times`), then -- two products -- `x` against
+`x'` and the arguments, or -- two atoms -- the bases and the exponents. -/
 def bodyCmp : IExp → IExp → Ordering
   | mul x y, mul x' y' =>
-    if (mul x y).size ≠ (mul x' y').size then compare (mul x y).size (mul x' y').size
-    else ordThen (compare x.size x'.size) (ordThen (bodyCmp x x') (bodyCmp y y'))
-  | pow b e, pow b' e' =>
-    if (pow b e).size ≠ (pow b' e').size then compare (pow b e).size (pow b' e').size
-    else ordThen (baseCmp b b') (numCmp e e')
-  | pow b e, mul x y =>
-    if (pow b e).size ≠ (mul x y).size then compare (pow b e).size (mul x y).size
-    else ordThen (compare b.size x.size) .lt       -- `power` < `times`
-  | mul x y, pow b e =>
-    if (mul x y).size ≠ (pow b e).size then compare (mul x y).size (pow b e).size
-    else ordThen (compare x.size b.size) .gt
-  | a, b => compare a.size b.size
+    ordThen (compare (mul x y).size (mul x' y').size)
+      (ordThen (compare x.size x'.size) (ordThen (bodyCmp x x') (bodyCmp y y')))
+  | a, b =>
+    ordThen (compare a.size b.size)
+      (ordThen (compare (fszI a) (fszI b)) (ordThen (compare (clsI a) (clsI b)) (leafI a b)))
 
 def isNum : IExp → Bool
   | num _ => true
